@@ -59,10 +59,6 @@ pub fn build(parts: &[J]) -> Vec<u8> {
         Some("bogus") => out.extend_from_slice(&[0x07, 0x00, 0x00, 0x00]),
         _ => out.extend_from_slice(&[0x01, 0x00, 0x00, 0x00]),
     }
-    // types: 0 = func [] -> [], 1 = struct {}
-    section(1, &[0x02, 0x60, 0x00, 0x00, 0x5f, 0x00], &mut out);
-    // imports: one function import (type 0) and an immutable i32 global
-    section(2, &[0x02, 0x01, b'm', 0x01, b'f', 0x00, 0x00, 0x01, b'm', 0x01, b'g', 0x03, 0x7f, 0x00], &mut out);
     // name section content
     let name_section = |parts: &[J]| -> Option<Vec<u8>> {
         let nf = parts.iter().find(|x| x["p"] == "name_func");
@@ -114,6 +110,13 @@ pub fn build(parts: &[J]) -> Vec<u8> {
         .unwrap_or("last")
         .to_string();
     let ns = name_section(parts);
+    if let (Some(ns), "front") = (&ns, name_at.as_str()) {
+        custom("name", ns, &mut out);
+    }
+    // types: 0 = func [] -> [], 1 = struct {}
+    section(1, &[0x02, 0x60, 0x00, 0x00, 0x5f, 0x00], &mut out);
+    // imports: one function import (type 0) and an immutable i32 global
+    section(2, &[0x02, 0x01, b'm', 0x01, b'f', 0x00, 0x00, 0x01, b'm', 0x01, b'g', 0x03, 0x7f, 0x00], &mut out);
     if let (Some(ns), "first") = (&ns, name_at.as_str()) {
         custom("name", ns, &mut out);
     }
